@@ -787,9 +787,11 @@ func TestCheck(t *testing.T) {
 		wg.Add(1)
 		go func(j *mcJob) {
 			defer wg.Done()
-			w := 7
+			w := ev.Pick(7, 3)
 			if j.defect {
 				w = 1
+			} else if strings.Contains(j.cfg, "time") {
+				w = ev.Pick(7, 12)
 			}
 			j.res = tlc.Run(tlc.Opts{Dir: "Spiffe", Module: "MCSpiffe", Config: j.cfg, Workers: w,
 				Timeout: ev.Pick(6*time.Minute, 45*time.Minute), HeapMB: ev.Pick(4000, 12000), Args: []string{"-noGenerateSpecTE"}})
